@@ -131,7 +131,11 @@ func (g *gen) expr(depth int) string {
 	case 17:
 		return g.expr(d) + "." + g.pick(selNames...) + "(" + g.args(d, 2) + ")"
 	case 18:
-		return g.typ(1) + "(" + g.expr(d) + ")"
+		t := g.typ(1)
+		if strings.HasPrefix(t, "func") {
+			t = "(" + t + ")" // go/printer writes the parentheses anyway
+		}
+		return t + "(" + g.expr(d) + ")"
 	case 19:
 		return "G[" + g.typ(0) + "](" + g.args(d, 2) + ")"
 	case 20:
@@ -292,8 +296,10 @@ func (g *gen) funcDecl(name string, bodyDepth int) string {
 	case 0:
 		s += " " + g.typ(1)
 	case 1:
-		if ps := g.params(2, false); ps != "" {
+		if ps := g.params(2, false); strings.Contains(ps, ", ") {
 			s += " (" + ps + ")"
+		} else if ps != "" {
+			s += " " + ps // a single result is written without the redundant parentheses
 		}
 	case 2:
 		s += " (res int, err error)"
